@@ -587,14 +587,17 @@ theorem addAt_eq (root : Node) (pattern : Str) (id : Nat) (g : Group) :
 
 theorem addListenerAt_eq (root : Node) (pattern : Str) (id : Nat) :
     addListenerAt root pattern id =
-      ((fetch none (listenK id) root (splitPattern pattern) 0 0 [] false).1,
-       regResult (fetch none (listenK id) root (splitPattern pattern) 0 0 [] false).2) := by
+      if !Pattern.isValid pattern then (root, .error .invalidPattern)
+      else ((fetch none (listenK id) root (splitPattern pattern) 0 0 [] false).1,
+            regResult (fetch none (listenK id) root (splitPattern pattern) 0 0 [] false).2) := by
   unfold addListenerAt
   split
-  rename_i root' r heq
-  have heq' : fetch none (listenK id) root (splitPattern pattern) 0 0 [] false = (root', r) := heq
-  rw [heq']
-  rcases r with e | (e | ⟨⟨⟩⟩) <;> rfl
+  · rfl
+  · split
+    rename_i root' r heq
+    have heq' : fetch none (listenK id) root (splitPattern pattern) 0 0 [] false = (root', r) := heq
+    rw [heq']
+    rcases r with e | (e | ⟨⟨⟩⟩) <;> rfl
 
 
 /-! ## what `fetch` does to stored nodes -/
@@ -1469,8 +1472,10 @@ theorem addHandlerAt_good (root : Node) (pattern : Str) (id : Nat) (group : Str)
 theorem addListenerAt_good (root : Node) (pattern : Str) (id : Nat)
     (h : Good root 0) : Good (addListenerAt root pattern id).1 0 := by
   rw [addListenerAt_eq]
-  exact fetch_good (listenK id) (splitPattern pattern).length (listenK_nodeOK id _) (child_listenK id) _ root 0 [] false
-    (by simp) h (by simp)
+  split
+  · exact h
+  · exact fetch_good (listenK id) (splitPattern pattern).length (listenK_nodeOK id _) (child_listenK id) _ root 0 [] false
+      (by simp) h (by simp)
 
 
 theorem matchNode_mountIdx (toks : List Str) : ∀ (l : Node) (i mi d : Nat) (f : Found),
